@@ -504,6 +504,10 @@ def build(run):
     run.assume("A-STR", "A-PY", "A-MSG", "A-LOG", "A-LISTVAL", "A-FRESH")
     plan = [("rule.Rule.parse", verify_rule_parse), ("rule.Consequent.load", verify_consequent_load), ("rule.Antecedent.load", verify_antecedent_load),
             ("term.Function.infix_to_postfix", verify_infix_to_postfix)]
+    # Rule.load (a failed load leaves the rule unloaded and deactivated) and RuleBlock.load_rules (every rule attempted, one RuntimeError
+    # afterwards) are verified by the drivers shared with C13, over the loader contracts whose raise/unloaded clauses are proved above
+    from props import C13
+    plan += [("rule.Rule.load", C13.verify_rule_load), ("rule.RuleBlock.load_rules", C13.verify_block_loaders)]
     for fq, f in plan:
         try:
             f(run)
